@@ -214,3 +214,25 @@ Definition SInv (t : term) (v : vt) : Prop :=
   TermPenSpec.sgr_matches (cap_colon (x_caps (t_drv t))) (cap_rgb8 (x_caps (t_drv t))) (t_pen t) (v_sgr v).
 Definition req_pen_ok (q : req) : Prop :=
   match q with RChpen p | RSetpen p => pen_in_range p | _ => True end.
+
+(* ---- the recorded finding C09-erasech-rv-right-edge as a trigger class: under reverse
+   video, an erase (count >= 1) with the cursor to stay, ending exactly at the right edge and
+   not starting in column 0.  [seq_ok_excl excl] is [seq_ok] for the requests outside [excl]. *)
+Definition erase_trigger (rv : bool) (n : Z) (me : maybe) (v : vt) : bool :=
+  rv && (match me with MNo => true | _ => false end) && (1 <=? n) && (col v + n =? v_cols v) && (0 <? col v).
+Definition rv_edge_excl (t : term) (v : vt) (q : req) : bool :=
+  match q with
+  | RErase n me => erase_trigger (get_bool_attr (t_pen t) AReverse) n me v
+  | _ => false
+  end.
+Fixpoint seq_ok_excl (excl : term -> vt -> req -> bool) (t : term) (v : vt) (qs : list req) : Prop :=
+  match qs with
+  | [] => True
+  | q :: rest =>
+      in_range q v -> excl t v q = false ->
+      exists t' ret ts,
+        drv_req t q = Some (t', ret, ts) /\
+        effect_ok q ret (match ts with [] => true | _ => false end) v (vt_run ts v) /\
+        vt_ok (vt_run ts v) /\
+        seq_ok_excl excl t' (vt_run ts v) rest
+  end.
